@@ -10,7 +10,7 @@ pub fn meta() -> Meta {
         level: "exploration",
         rule: "all ordered pairs of the lexeme instances (every keyword and type name of SyntaxKind, 24 punctuation characters, integer spellings in 4 radices with prefix cases and underscores, float shapes, number+unit for 7 units glued and spaced, ASCII/underscore/Unicode identifiers including keyword-prefixed ones, hardware qubits, bit strings, quoted strings, comments, pragma and annotation lines, the version header) x 7 separator flavours (nothing where the pair cannot fuse), all triples with the default separator in the thorough tier, and every instance alone; each case enumerated once; non-trivial = both lexemes of the pair are non-trivia; outcomes = distinct expected kind sequences",
         assumptions: vec![
-            "expected kinds come from a hand-written table in the harness (keywords and types by the naming convention <NAME>_KW / <NAME>_TY); the bare words OPENQASM and pragma exist only in their header / line forms",
+            "expected kinds come from a hand-written table in the harness (keywords and types by the naming convention <NAME>_KW / <NAME>_TY); the bare words OPENQASM and pragma are keyword lexemes only where no white space follows them (with white space they open a version header / a pragma line, which are separate instances)",
             "must_separate is a conservative character-class rule: extra separators are always allowed by the statement",
         ],
     }
@@ -77,7 +77,7 @@ pub fn instances() -> Vec<Inst> {
             }
         }
     }
-    for t in ["x", "_x", "x_1", "pragmatic", "OPENQASMx", "p", "pr", "O", "OPEN", "é", "π", "變", "defx", "intx", "xint", "im", "ns", "e1", "b", "x0b", "If", "Int", "__", "a1b2", "µ"] {
+    for t in ["x", "_x", "x_1", "pragmatic", "OPENQASMx", "p", "pr", "O", "OPEN", "é", "π", "變", "defx", "intx", "xint", "im", "ns", "e1", "b", "x0b", "If", "Int", "__", "a1b2", "µ", "re\u{301}sume", "q\u{662}", "a\u{b7}b", "a\u{203f}b"] {
         v.push(inst(t, "IDENT"));
     }
     for t in ["$0", "$12", "$007"] {
@@ -94,18 +94,86 @@ pub fn instances() -> Vec<Inst> {
     }
     v.push(Inst { text: "// c".into(), expect: vec![], line: true, header: false });
     v.push(Inst { text: "//".into(), expect: vec![], line: true, header: false });
+    v.push(Inst { text: "// c \\".into(), expect: vec![], line: true, header: false });
     v.push(Inst { text: "// é√ 変".into(), expect: vec![], line: true, header: false });
     v.push(Inst { text: "/* é√ */".into(), expect: vec![], line: false, header: false });
-    for t in ["pragma a b", "#pragma a b", "pragma\ta", "pragma é√ x", "pragma Å х", "pragma ", "pragma   \t", "#pragma "] {
+    for t in ["pragma a b", "#pragma a b", "pragma\ta", "pragma é√ x", "pragma Å х", "pragma ", "pragma   \t", "#pragma ", "pragma a \\", "pragma \"", "pragma /*"] {
         v.push(Inst { text: t.into(), expect: vec![("PRAGMA".into(), t.into())], line: true, header: false });
     }
-    for t in ["@ann a b", "@a", "@é 1", "@ann é√変", "@QPU fast", "@X 1", "@IBM.layout 0 1", "@A_b c", "@Q1 on", "@_x", "@U", "@ann ą\u{85}"] {
+    for t in ["@ann a b", "@a", "@é 1", "@ann é√変", "@QPU fast", "@X 1", "@IBM.layout 0 1", "@A_b c", "@Q1 on", "@_x", "@U", "@ann ą\u{85}", "@ann a \\", "@ann /*"] {
         v.push(Inst { text: t.into(), expect: vec![("ANNOTATION".into(), t.into())], line: true, header: false });
     }
     for t in ["OPENQASM 3.0", "OPENQASM 3", "OPENQASM  2.0", "OPENQASM\t3.1"] {
         v.push(Inst { text: t.into(), expect: vec![("VERSION_STRING".into(), t.into())], line: false, header: true });
     }
+    // the two keywords that start a header / a line when white space follows are plain
+    // keyword tokens when anything else follows (see `bare_word`)
+    v.push(inst("OPENQASM", "O_P_E_N_Q_A_S_M_KW"));
+    v.push(inst("pragma", "PRAGMA_KW"));
     v
+}
+
+/// LEXEME-IN-CONTEXT: every single-token instance (and every number + unit) written where the
+/// grammar takes it -- integers, floats and bit strings as initializers and indices, hardware
+/// qubits as operands of every quantum statement, identifiers as declared and assigned names,
+/// timing and imaginary literals as durations and complex values.  Tokens are separated by one
+/// blank (callers re-lay them out).  `standard` is false for spellings the lexer accepts
+/// without complaint although the official grammar does not have them.
+pub fn lexeme_context_texts() -> Vec<(String, bool)> {
+    let mut v: Vec<(String, bool)> = Vec::new();
+    let units = ["ns", "us", "µs", "ms", "s", "dt", "im"];
+    for i in instances() {
+        if i.line || i.header || i.text.contains(' ') && i.expect.len() == 1 {
+            continue;
+        }
+        let t = &i.text;
+        match (i.expect.len(), i.expect.first().map(|e| e.0.as_str())) {
+            (1, Some("INT_NUMBER")) => {
+                v.push((format!("int w = {} ;", t), true));
+                v.push((format!("a = m [ {} ] ;", t), true));
+                v.push((format!("f1 ( {} , a ) ;", t), true));
+            }
+            (1, Some("FLOAT_NUMBER")) => {
+                v.push((format!("float w = {} ;", t), true));
+                v.push((format!("rx ( {} ) r ;", t), true));
+            }
+            (1, Some("BIT_STRING")) => {
+                v.push((format!("bit [ 4 ] w = {} ;", t), true));
+                v.push((format!("m = {} ;", t), true));
+            }
+            (1, Some("HARDWAREIDENT")) => {
+                for f in ["h {} ;", "cx {} , $1 ;", "reset {} ;", "measure {} ;", "k = measure {} ;", "barrier {} ;", "delay [ 10 ns ] {} ;", "qubit {} ;", "def fh ( ) {{ h {} ; }}"] {
+                    v.push((f.replace("{{", "{").replace("}}", "}").replace("{}", t), true));
+                }
+            }
+            (1, Some("IDENT")) if !units.contains(&t.as_str()) => {
+                v.push((format!("int {} = 1 ;", t), true));
+                v.push((format!("int {} ; {} = 2 ;", t, t), true));
+                v.push((format!("qubit {} ; h {} ;", t, t), true));
+            }
+            (2, Some("INT_NUMBER")) | (2, Some("FLOAT_NUMBER")) => {
+                if i.expect[1].1 == "im" {
+                    v.push((format!("complex w = {} ;", t), true));
+                } else {
+                    v.push((format!("duration w = {} ;", t), true));
+                    v.push((format!("delay [ {} ] r ;", t), true));
+                }
+            }
+            _ => {}
+        }
+    }
+    for t in ["$1_0", "$0_", "$1__2", "$4294967295", "$4294967296", "$340282366920938463463374607431768211456"] {
+        for f in ["h {} ;", "cx {} , $1 ;", "reset {} ;", "measure {} ;", "barrier {} ;", "delay [ 10 ns ] {} ;", "qubit {} ;"] {
+            v.push((f.replace("{}", t), false));
+        }
+    }
+    v
+}
+
+/// The bare words `OPENQASM` and `pragma`: keywords of their own kind unless white space
+/// follows (then they open a version header / a pragma line, which are other instances).
+pub fn bare_word(a: &Inst) -> bool {
+    a.expect.len() == 1 && (a.expect[0].0 == "O_P_E_N_Q_A_S_M_KW" || a.expect[0].0 == "PRAGMA_KW")
 }
 
 /// The pool plus every number spelling with every unit attached (with and without a blank):
@@ -194,6 +262,9 @@ pub fn render(seq: &[&Inst], sep: &str) -> Option<String> {
             let prev = seq[i - 1];
             if sep.is_empty() && must_separate(prev, l) {
                 return None;
+            }
+            if bare_word(prev) && sep.starts_with(|c: char| c.is_whitespace()) {
+                return None; // would be another lexeme (header / pragma line)
             }
             if prev.line && !sep.starts_with('\n') {
                 out.push('\n');
@@ -301,6 +372,8 @@ impl Space for Pairs {
                 for (pre, post) in [("", ""), (" ", ""), ("", "\n"), ("/*c*/", " "), ("\n\t", "\n")] {
                     let post = if a.line {
                         "\n"
+                    } else if bare_word(a) {
+                        if post == " " { "/*c*/" } else { "" }
                     } else if a.header && post.is_empty() {
                         " "
                     } else {
